@@ -73,7 +73,7 @@ def build(S, tier, seed):
                      dates.PARSE_LOOP: dates.parse_loop_annot(),
                      purge.PARSE_PATH_LOOP: purge.parse_path_loop_annot()})
     act = [trashdirs.VolumeOf().key, trashdirs.HomeTrashDirPath().key]
-    c03.build(S, tier, seed)            # writer text, readers, byte lemmas
+    c03.build(S, tier, seed, with_readers=False)            # writer text, readers, byte lemmas
     put.leaf_vcs(S)
     purge.leaf_vcs(S)
     put.trash_file_in_vc(S, conservation=False)
